@@ -3,7 +3,7 @@ from props import boardprop
 
 FIELDS = ("legal.set","check.white","check.black","attacked.white","attacked.black","check.after","pseudo.count","move-accepted","spec.legal_set","spec.nodup","spec.check_white","spec.check_black","spec.flags","spec.wf")
 PREFIXES = ()
-HAS_PROOFS = False
+HAS_PROOFS = True
 
 
 def run(ctx):
